@@ -15,12 +15,14 @@ pub proof fn lemma_dc_sq_setup(a: int, a_lo: int, a_hi: int, p: int, qh: int, rh
     assert(p * rp >= 0) by (nonlinear_arith) requires p >= 0, rp >= 0;
 }
 
-/// overflow word of a signed accumulation: v1 + ov*Bn == t with -k*Bn <= t... : bounds on ov from bounds on t
+/// overflow word of a signed accumulation: v1 + ov*Bn == t with lo*Bn <= t < hi*Bn  ==>  lo <= ov < hi
 pub proof fn lemma_dc_ov_bounds(v1: int, ov: int, bn: int, t: int, lo: int, hi: int)
     requires 0 <= v1 < bn, v1 + ov * bn == t, lo * bn <= t, t < hi * bn,
-    ensures lo <= ov + 1 || lo <= ov, ov < hi, ov >= lo - 1,
+    ensures lo <= ov < hi,
 {
     assert(ov < hi) by (nonlinear_arith) requires ov * bn < hi * bn, bn > 0;
+    let x = (lo - 1) * bn;
+    assert(x == lo * bn - bn) by (nonlinear_arith) requires x == (lo - 1) * bn;
     assert(ov > lo - 1) by (nonlinear_arith) requires ov * bn > (lo - 1) * bn, bn > 0;
 }
 
@@ -30,7 +32,7 @@ pub proof fn lemma_dc_correct_step(a: int, q0: int, qo0: int, rem0: int, ro0: in
     requires a == (q0 + qo0 * bm) * r + rem0 + ro0 * bn,
         rem1 + c * bn == rem0 + r, ro1 == ro0 + c,
         q1 - b * bm == q0 - 1, qo1 == qo0 - b,
-    ensures a == (q1 + qo1 * bm) * r + rem1 + ro1 * bn,
+    ensures a == (q1 + qo1 * bm) * r + rem1 + ro1 * bn, rem1 + ro1 * bn == rem0 + ro0 * bn + r,
 {
     assert((qo0 - b) * bm == qo0 * bm - b * bm) by (nonlinear_arith);
     assert((ro0 + c) * bn == ro0 * bn + c * bn) by (nonlinear_arith);
@@ -96,4 +98,175 @@ pub proof fn lemma_dc_same_len(a: int, a_lo: int, t0: int, qhi: int, o: int, r1:
 {
     assert(plo * ((qhi + o * phi) * r + r1) == (plo * qhi) * r + (o * (plo * phi)) * r + plo * r1) by (nonlinear_arith);
     assert(((qlo + plo * qhi) + o * bn) * r == qlo * r + (plo * qhi) * r + (o * bn) * r) by (nonlinear_arith);
+}
+
+/// small quotient, after the recursive 2m/m division of the top parts (sequence level):
+/// l1 agrees with l0 below k = n-m and [l1[k..n], l1[n..]] is the (remainder, quotient) of l0[k..] by rhs[k..]
+pub proof fn lemma_dc_sq_rec(l0: Seq<Word>, l1: Seq<Word>, rhs: Seq<Word>, o: bool, n: int, m: int)
+    requires 2 <= m < n, rhs.len() == n, l0.len() == n + m, l1.len() == n + m,
+        forall|j: int| 0 <= j < n - m ==> l1[j] == l0[j],
+        div_post(l0.subrange(n - m, n + m), l1.subrange(n - m, n + m), rhs.subrange(n - m, n), o),
+    ensures ({
+        let qh = val(l1.subrange(n, n + m)) + b2i(o) * pw(m);
+        let rlo = val(rhs.subrange(0, n - m));
+        let rem1 = val(l1.subrange(0, n));
+        val(l0) == qh * val(rhs) + (rem1 - qh * rlo) && rem1 - qh * rlo < val(rhs) && 0 <= rlo < pw(n - m) && qh >= 0
+            && 0 <= val(l1.subrange(n, n + m)) < pw(m) && pw(n) == pw(m) * pw(n - m) && 0 <= rem1 < pw(n)
+            && pw(m) >= 1 && pw(n) >= 1 && pw(n - m) >= 1
+    }),
+{
+    let k = n - m;
+    let s0 = l0.subrange(k, n + m);
+    let s1 = l1.subrange(k, n + m);
+    let rhi = rhs.subrange(k, n);
+    let rlo = rhs.subrange(0, k);
+    let q = l1.subrange(n, n + m);
+    let rem = l1.subrange(0, n);
+    lemma_dc_split(rhs, k);
+    lemma_dc_split(l0, k);
+    lemma_dc_split(rem, k);
+    lemma_pw_add(m, k);
+    lemma_pw_pos(m); lemma_pw_pos(n); lemma_pw_pos(k);
+    assert(s1.subrange(m, 2 * m) =~= q);
+    assert(s1.subrange(0, m) =~= l1.subrange(k, n));
+    assert(rem.subrange(0, k) =~= l0.subrange(0, k));
+    assert(rem.subrange(k, n) =~= l1.subrange(k, n));
+    lemma_valn_bound(q, m);
+    lemma_valn_bound(rem, n);
+    let qh = val(q) + b2i(o) * pw(m);
+    assert(b2i(o) * pw(m) >= 0) by (nonlinear_arith) requires b2i(o) >= 0, pw(m) >= 1;
+    lemma_dc_sq_setup(val(l0), val(l0.subrange(0, k)), val(s0), pw(k), qh, val(rhi), val(l1.subrange(k, n)), val(rem),
+        val(rhs), val(rlo));
+}
+
+/// the overflow word of rem -= q * Rlo is -1 or 0
+pub proof fn lemma_dc_sq_mul_bounds(rem1: int, q1: int, rlo: int, bm: int, p: int, bn: int, v2: int, ro2: int)
+    requires 0 <= rem1 < bn, 0 <= q1 < bm, 0 <= rlo < p, bn == bm * p, 0 <= v2 < bn, v2 + ro2 * bn == rem1 - q1 * rlo,
+    ensures -1 <= ro2 <= 0,
+{
+    assert(q1 * rlo < bm * p) by (nonlinear_arith) requires 0 <= q1 < bm, 0 <= rlo < p;
+    assert(q1 * rlo >= 0) by (nonlinear_arith) requires 0 <= q1, 0 <= rlo;
+    assert((-1) * bn == -bn && 1 * bn == bn);
+    lemma_dc_ov_bounds(v2, ro2, bn, rem1 - q1 * rlo, -1, 1);
+}
+
+/// subtracting Rlo from the words m.. of rem (sequence level)
+pub proof fn lemma_dc_sq_sub_seq(rem2: Seq<Word>, rem3: Seq<Word>, rlo: int, b: int, n: int, m: int)
+    requires 0 <= m <= n, rem2.len() == n, rem3.len() == n,
+        forall|j: int| 0 <= j < m ==> rem3[j] == rem2[j],
+        val(rem3.subrange(m, n)) - b * pw(n - m) == val(rem2.subrange(m, n)) - rlo,
+    ensures val(rem3) - b * pw(n) == val(rem2) - pw(m) * rlo,
+{
+    lemma_dc_split(rem2, m);
+    lemma_dc_split(rem3, m);
+    assert(rem3.subrange(0, m) =~= rem2.subrange(0, m));
+    lemma_dc_sq_sub(val(rem2), val(rem3), val(rem2.subrange(0, m)), val(rem2.subrange(m, n)), val(rem3.subrange(m, n)),
+        b, rlo, pw(m), pw(n - m), pw(n));
+}
+
+/// the loop invariant of the correction loop holds on entry
+pub proof fn lemma_dc_sq_inv(rem1: int, q1: int, qo: int, rlo: int, bm: int, bn: int, v2: int, ro2: int, v3: int, ro3: int, b: int)
+    requires v2 + ro2 * bn == rem1 - q1 * rlo,
+        (qo == 0 && v3 == v2 && ro3 == ro2) || (qo == 1 && v3 - b * bn == v2 - bm * rlo && ro3 == ro2 - b),
+    ensures v3 + ro3 * bn == rem1 - (q1 + qo * bm) * rlo,
+{
+    if qo == 0 {
+        assert(qo * bm == 0) by (nonlinear_arith) requires qo == 0;
+    } else {
+        assert(qo * bm == bm) by (nonlinear_arith) requires qo == 1;
+        assert((q1 + bm) * rlo == q1 * rlo + bm * rlo) by (nonlinear_arith);
+        assert((ro2 - b) * bn == ro2 * bn - b * bn) by (nonlinear_arith);
+    }
+}
+
+/// inside the correction loop (running value negative) the quotient so far is positive: q_overflow >= 0
+pub proof fn lemma_dc_sq_loop_pos(a: int, qv: int, qo: int, remv: int, ro: int, r: int, bm: int, bn: int)
+    requires a >= 0, a == (qv + qo * bm) * r + remv + ro * bn, 0 <= remv < bn, ro <= -1, r > 0, 0 <= qv < bm,
+    ensures qo >= 0, remv + ro * bn < 0,
+{
+    assert(remv + ro * bn < 0) by (nonlinear_arith) requires remv < bn, ro <= -1, bn >= 1;
+    assert(qv + qo * bm > 0) by (nonlinear_arith)
+        requires (qv + qo * bm) * r == a - (remv + ro * bn), a >= 0, remv + ro * bn < 0, r > 0;
+    assert(qo >= 0) by (nonlinear_arith) requires qv + qo * bm > 0, qv < bm, bm >= 1;
+}
+
+/// recomposition: final lhs = rem ++ q satisfies div_post
+pub proof fn lemma_dc_sq_post(l0: Seq<Word>, l2: Seq<Word>, rhs: Seq<Word>, ret: bool, n: int, m: int, qo: int)
+    requires 0 <= m, 0 <= n, l0.len() == n + m, l2.len() == n + m, rhs.len() == n, qo == b2i(ret),
+        val(l0) == (val(l2.subrange(n, n + m)) + qo * pw(m)) * val(rhs) + val(l2.subrange(0, n)),
+        val(l2.subrange(0, n)) < val(rhs),
+        ret == (val(l0.subrange(m, n + m)) >= val(rhs)),
+    ensures div_post(l0, l2, rhs, ret),
+{
+    assert(l0.subrange(l0.len() - n, l0.len() as int) =~= l0.subrange(m, n + m));
+}
+
+/// one block step of the outer long division, on values (see lemma_dc_outer_seq)
+pub proof fn lemma_dc_outer_step(a: int, qacc: int, ov: int, o: int, qb: int, rb: int, low: int, vb0: int, vlow_m: int, r: int,
+    pk: int, pj: int, pw_: int, pl: int)
+    requires a == ((qacc + ov * pk) * pj) * r + vlow_m, vlow_m == low + pl * vb0, vb0 == (qb + o * pw_) * r + rb,
+        pj == pw_ * pl, o == 0 || (o == 1 && qacc == 0 && ov == 0 && pk == 1),
+    ensures a == (((qb + pw_ * qacc) + (ov + o) * (pk * pw_)) * pl) * r + (low + pl * rb),
+{
+    let x = qacc + ov * pk;
+    assert((x * (pw_ * pl)) * r == ((x * pw_) * pl) * r) by (nonlinear_arith);
+    assert(pl * ((qb + o * pw_) * r + rb) == ((qb + o * pw_) * pl) * r + pl * rb) by (nonlinear_arith);
+    assert(((x * pw_) * pl) * r + ((qb + o * pw_) * pl) * r == ((x * pw_ + qb + o * pw_) * pl) * r) by (nonlinear_arith);
+    if o == 0 {
+        assert(o * pw_ == 0) by (nonlinear_arith) requires o == 0;
+        assert((qacc + ov * pk) * pw_ == pw_ * qacc + (ov + o) * (pk * pw_)) by (nonlinear_arith) requires o == 0;
+    } else {
+        assert(x == 0) by (nonlinear_arith) requires x == qacc + ov * pk, qacc == 0, ov == 0;
+        assert(x * pw_ == 0) by (nonlinear_arith) requires x == 0;
+        assert(pw_ * qacc == 0) by (nonlinear_arith) requires qacc == 0;
+        assert((ov + o) * (pk * pw_) == pw_ && o * pw_ == pw_) by (nonlinear_arith) requires ov == 0, o == 1, pk == 1;
+    }
+}
+
+/// one block step of the outer long division (sequence level): the block l[s..m] (remainder-so-far on top) is
+/// divided in place; l2 = [.., remainder (n words at s), block quotient (w = m-s-n words), earlier quotient words]
+pub proof fn lemma_dc_outer_seq(a: int, l: Seq<Word>, l2: Seq<Word>, rhs: Seq<Word>, o: bool, ov: bool, s: int, m: int, n: int)
+    requires 0 <= s, n >= 1, s + n <= m <= l.len(), l2.len() == l.len(), rhs.len() == n,
+        forall|j: int| (0 <= j < s || m <= j < l.len()) ==> l2[j] == l[j],
+        div_post(l.subrange(s, m), l2.subrange(s, m), rhs, o),
+        a == ((val(l.subrange(m, l.len() as int)) + b2i(ov) * pw(l.len() - m)) * pw(m - n)) * val(rhs) + val(l.subrange(0, m)),
+        m < l.len() ==> val(l.subrange(m - n, m)) < val(rhs),
+        m == l.len() ==> !ov,
+    ensures
+        o ==> m == l.len(),
+        a == ((val(l2.subrange(s + n, l.len() as int)) + b2i(ov || o) * pw(l.len() - s - n)) * pw(s)) * val(rhs)
+            + val(l2.subrange(0, s + n)),
+        val(l2.subrange(s, s + n)) < val(rhs),
+        o == (val(l.subrange(m - n, m)) >= val(rhs)),
+{
+    let len = l.len() as int;
+    let w = m - s - n;
+    let b0 = l.subrange(s, m);
+    let b1 = l2.subrange(s, m);
+    // low part up to m, before and after
+    lemma_dc_split(l.subrange(0, m), s);
+    assert(l.subrange(0, m).subrange(0, s) =~= l.subrange(0, s));
+    assert(l.subrange(0, m).subrange(s, m) =~= b0);
+    lemma_dc_split(l2.subrange(0, s + n), s);
+    assert(l2.subrange(0, s + n).subrange(0, s) =~= l.subrange(0, s));
+    assert(l2.subrange(0, s + n).subrange(s, s + n) =~= b1.subrange(0, n));
+    assert(l2.subrange(s, s + n) =~= b1.subrange(0, n));
+    // quotient words, after
+    lemma_dc_split(l2.subrange(s + n, len), w);
+    assert(l2.subrange(s + n, len).subrange(0, w) =~= b1.subrange(n, n + w));
+    assert(l2.subrange(s + n, len).subrange(w, len - s - n) =~= l.subrange(m, len));
+    assert(b0.subrange(b0.len() - n, b0.len() as int) =~= l.subrange(m - n, m));
+    lemma_pw_add(w, s);
+    lemma_pw_add(len - m, w);
+    assert(o ==> m == len);
+    if o {
+        assert(l.subrange(m, len).len() == 0);
+        assert(val(l.subrange(m, len)) == 0);
+        assert(pw(0) == 1);
+    }
+    let pk = pw(len - m);
+    assert(b2i(ov || o) == b2i(ov) + b2i(o));
+    lemma_dc_outer_step(a, val(l.subrange(m, len)), b2i(ov), b2i(o), val(b1.subrange(n, n + w)), val(b1.subrange(0, n)),
+        val(l.subrange(0, s)), val(b0), val(l.subrange(0, m)), val(rhs), pk, pw(m - n), pw(w), pw(s));
+    assert(pw(w) * val(l.subrange(m, len)) == val(l.subrange(m, len)) * pw(w)) by (nonlinear_arith);
 }
